@@ -27,7 +27,7 @@ def digest (c : Chan) : String :=
   s!"ci={optNat c.curInfo} pi={optNat c.prevInfo} st={store}"
 
 def sig? : String → Option SigFact
-  | "1" => some .valid | "0" => some .invalid | "2" => some .oob | _ => none
+  | "1" => some .valid | "0" => some .invalid | "2" => some .oob | "3" => some .validUnpaid | _ => none
 
 def bool? : String → Option Bool
   | "1" => some true | "0" => some false | _ => none
@@ -42,7 +42,10 @@ def parse (toks : List String) : Option Op :=
   | ["getpoint", n] => (nat? n).map .getPoint
   | ["getsecret", n] => (nat? n).map .getSecret
   | ["getsecretnone", n] => (nat? n).map .getSecretOrNone
-  | ["revoke", n] => (nat? n).map .revoke
+  | "revoke" :: n :: rest => do
+    let n ← nat? n
+    let po ← (match rest with | [] => some true | p :: _ => bool? p)
+    pure (.revoke n po)
   | ["signholder", n] => (nat? n).map .signHolder
   | "validate" :: n :: c :: s :: p :: _ => do
     let n ← nat? n; let c ← nat? c; let s ← sig? s; let p ← bool? p
@@ -60,7 +63,10 @@ def parse (toks : List String) : Option Op :=
   | "hvalidate" :: v :: n :: c :: s :: p :: _ => do
     let v ← nat? v; let n ← nat? n; let c ← nat? c; let s ← sig? s; let p ← bool? p
     pure (.hValidate v n c s p)
-  | ["hrevoke", v, n] => do let v ← nat? v; let n ← nat? n; pure (.hRevoke v n)
+  | "hrevoke" :: v :: n :: rest => do
+    let v ← nat? v; let n ← nat? n
+    let po ← (match rest with | [] => some true | p :: _ => bool? p)
+    pure (.hRevoke v n po)
   | ["hgetpoint", v, n] => do let v ← nat? v; let n ← nat? n; pure (.hGetPoint v n)
   | ["hgetpoint2", n] => (nat? n).map .hGetPoint2
   | _ => none
